@@ -128,6 +128,14 @@ def simplify_roles(fn) -> Dict[str, str]:
             for lp in ast.walk(n):
                 if isinstance(lp, ast.For) and isinstance(lp.iter, ast.Name) and lp.iter.id == n.target.elts[1].id and isinstance(lp.target, ast.Name):
                     roles.setdefault(lp.target.id, "alias")
+                    # the sign of the alias: the local that gets -1 / 1 under the test on the leading '-' of the alias name
+                    for t in ast.walk(lp):
+                        if isinstance(t, ast.If) and isinstance(t.test, ast.Compare) and isinstance(t.test.left, ast.Subscript) \
+                                and isinstance(t.test.left.value, ast.Name) and t.test.left.value.id == lp.target.id:
+                            for st in t.body + t.orelse:
+                                if isinstance(st, ast.Assign) and isinstance(st.targets[0], ast.Name) and isinstance(st.value, (ast.Constant, ast.UnaryOp)) \
+                                        and norm(st.value) in ("1", "-1"):
+                                    roles.setdefault(st.targets[0].id, "sign")
     return {k: v for k, v in roles.items() if k != v}
 
 
